@@ -45,7 +45,7 @@ def gen(c):
     allv = boundary(rng)
     pairs = [(x, y) for x in allv for y in allv]
     rng.shuffle(pairs)
-    pairs = pairs[: (120 if c.quick else 900)] + [(0, 0), (R - 1, R - 1), (R - 1, 1), (p, p), (1, R - 1)]
+    pairs = pairs[: (120 if c.quick else 900)] + [(0, 0), (R - 1, R - 1), (R - 1, 1), (p, p), (1, R - 1)] + [(x, (R - x) % R) for x in allv] + [(x, (R - 1 - x) % R) for x in allv[:12]]
     for x, y in pairs:
         for op in ("add", "sub", "mul", "cmp"):
             put({"op": op, "a": H(x), "b": H(y)}, {"op": op})
@@ -63,7 +63,9 @@ def gen(c):
         vs = boundary(rng, mod)
         prs = [(x, y) for x in vs for y in vs]
         rng.shuffle(prs)
-        for x, y in prs[: (60 if c.quick else 500)]:
+        # never thinned: the pairs whose sum / difference sits exactly on the reduction boundary
+        must = [(x, (mod - x) % mod) for x in vs] + [(mod - 1, 1), (1, mod - 1), (mod - 1, mod - 1), (0, 0), (0, mod - 1), (mod - 1, 0), (mod - 2, 1), (mod - 1, 2)]
+        for x, y in must + prs[: (60 if c.quick else 500)]:
             put({"op": tag + "_add", "a": H(x), "b": H(y)}, {"op": tag + "_add"})
             put({"op": tag + "_sub", "a": H(x), "b": H(y)}, {"op": tag + "_sub"})
             if tag == "modn":
